@@ -5,20 +5,21 @@ from hypothesis import strategies as st
 from pv import framing, model
 from pv.model import BUDGET, Walk
 
-_NM_PAIRS = None
+_NM_PAIRS = {}
 
 
-def nm_pairs():
-    """(n_raw, m_raw, coefficient bits) for every valid degree/order pair (order <= degree)"""
-    global _NM_PAIRS
-    if _NM_PAIRS is None:
+def nm_pairs(anyorder=False):
+    """(n_raw, m_raw, coefficient bits) for every degree/order pair; order <= degree (what IGS SSR defines) unless
+    `anyorder`: then all 256 field combinations - with the order above the degree the count formula shrinks again and
+    can go negative, which both the parser and the interpreter read as an empty coefficient group"""
+    if anyorder not in _NM_PAIRS:
         out = []
         for n in range(16):
-            for m in range(n + 1):
+            for m in range(16 if anyorder else n + 1):
                 nc, ns = model.harm_counts(n, m)
-                out.append((n, m, 16 * (nc + ns)))
-        _NM_PAIRS = out
-    return _NM_PAIRS
+                out.append((n, m, 16 * (max(nc, 0) + max(ns, 0))))
+        _NM_PAIRS[anyorder] = out
+    return _NM_PAIRS[anyorder]
 
 
 def draw_raw(draw, width):
@@ -130,11 +131,12 @@ def make_source(draw, ident, profile="mixed", msm_cells=64, fixed=None):
         if key == "IDF037":
             # degree and order chosen together so the coefficients fit; order <= degree
             avail = BUDGET - used - w.tail_min + 64  # tail_min already holds IDF038 and the minimum 64 coefficient bits
-            ok = [p for p in nm_pairs() if p[2] <= avail]
+            pairs = nm_pairs(profile == "anyorder")
+            ok = [p for p in pairs if p[2] <= avail]
             if profile in ("small", "one"):
                 ok = [p for p in ok if p[0] <= 2] or ok[:1]
             if not ok:
-                ok = nm_pairs()[:1]
+                ok = pairs[:1]
             if profile == "max":
                 pair = max(ok, key=lambda p: p[2])
             else:
